@@ -521,5 +521,5 @@ def replay(shard, rp):
 TECHNIQUE = 'post-condition contract on the real Disassembler/Assembler (re-assembly identity) driven by table enumeration and generated operand spellings'
 LEVEL_TEXT = ('Every statement the real disassembler returns in the workload is re-assembled by the real assembler and must give back the bytes it was decoded '
               'from; all 1792 table slots x 256 first-operand values are visited with sampled base/case/hex/Opcodes/address combinations, DEFB/DEFM/DEFW/DEFS '
-              'ranges with sublength lists are tiled, and generated texts with known operand values are taken through assemble/disassemble/assemble.')
+              'ranges with sublength lists are tiled, and generated texts with known operand values (instructions with expression operands - parentheses, / and modulo, character constants - and DEFB/DEFM/DEFS/DEFW statements with escaped strings and mixed items) are taken through assemble/disassemble/assemble.')
 LEVEL_NOTE = 'Sampled product of configuration dimensions (not the full cross product); base m excluded for unsigned-only operands; trusted: the generator computes the intended operand value correctly.'
